@@ -30,8 +30,21 @@ UrlBody   == Printable \ (WSp \cup {34, 39, 40, 41, 92})   \* what an unquoted u
 
 At(t, i) == IF i >= 1 /\ i <= Len(t) THEN t[i] ELSE 0       \* 0 = end of input
 
-RECURSIVE RunEnd(_, _, _)                                    \* first index >= i whose byte is not in S
-RunEnd(t, i, S) == IF i <= Len(t) /\ t[i] \in S THEN RunEnd(t, i + 1, S) ELSE i
+(* first index >= i whose byte is in S (FirstIn) / is not in S (RunEnd); Len(t) + 1 if there is none.          *)
+(* SelectInSubSeq is a loop in TLC (a definition recursive per byte costs a deep Java stack for a long           *)
+(* comment); it copies the range it searches, hence the windows of 48 bytes.                                      *)
+ASSUME SelectInSubSeq(<<1, 2, 3, 2>>, 3, 4, LAMBDA c : c = 2) = 4      \* TLC answers with an index of the whole sequence
+RECURSIVE FirstIn(_, _, _), RunEnd(_, _, _)
+FirstIn(t, i, S) ==
+  IF i > Len(t) THEN Len(t) + 1
+  ELSE LET hi == IF i + 47 < Len(t) THEN i + 47 ELSE Len(t)
+           k  == SelectInSubSeq(t, i, hi, LAMBDA c : c \in S)
+       IN IF k # 0 THEN k ELSE FirstIn(t, hi + 1, S)
+RunEnd(t, i, S) ==
+  IF i > Len(t) THEN Len(t) + 1
+  ELSE LET hi == IF i + 47 < Len(t) THEN i + 47 ELSE Len(t)
+           k  == SelectInSubSeq(t, i, hi, LAMBDA c : c \notin S)
+       IN IF k # 0 THEN k ELSE RunEnd(t, hi + 1, S)
 
 Lower(c) == IF c \in 65..90 THEN c + 32 ELSE c
 
@@ -57,17 +70,18 @@ NumEnd(t, i) ==
      ELSE IF At(t, j3) = 37 THEN j3 + 1 ELSE j3
 
 RECURSIVE CmtEnd(_, _)       \* index after the closing */ of a comment whose body starts at j; 0 = unterminated
-CmtEnd(t, j) == IF j + 1 > Len(t) THEN 0
-                ELSE IF t[j] = 42 /\ t[j + 1] = 47 THEN j + 2 ELSE CmtEnd(t, j + 1)
+CmtEnd(t, j) == LET k == FirstIn(t, j, {42}) IN                       \* next *
+                  IF k + 1 > Len(t) THEN 0
+                  ELSE IF t[k + 1] = 47 THEN k + 2 ELSE CmtEnd(t, k + 1)
 
 RECURSIVE StrEnd(_, _, _)    \* index after the closing quote; 0 = unterminated; -1 = raw newline inside (bad-string)
-StrEnd(t, j, q) ==
-  IF j > Len(t) THEN 0
-  ELSE IF t[j] = q THEN j + 1
-  ELSE IF t[j] = 92 THEN IF j + 1 > Len(t) THEN 0
-                         ELSE StrEnd(t, j + (IF t[j + 1] = 13 /\ At(t, j + 2) = 10 THEN 3 ELSE 2), q)
-  ELSE IF t[j] \in {10, 13, 12} THEN -1
-  ELSE StrEnd(t, j + 1, q)
+StrEnd(t, j0, q) ==
+  LET j == FirstIn(t, j0, {q, 92, 10, 13, 12}) IN                       \* next byte that is not plain content
+    IF j > Len(t) THEN 0
+    ELSE IF t[j] = q THEN j + 1
+    ELSE IF t[j] = 92 THEN IF j + 1 > Len(t) THEN 0
+                           ELSE StrEnd(t, j + (IF t[j + 1] = 13 /\ At(t, j + 2) = 10 THEN 3 ELSE 2), q)
+    ELSE -1
 
 T(k, s, e) == [k |-> k, s |-> s, e |-> e]
 
@@ -116,25 +130,29 @@ Tok(k, s) == [k |-> k, s |-> s]
 WTok == Tok("w", <<>>)
 HasCmtMark(s) == \E j \in 1..(Len(s) - 1) : s[j] = 47 /\ s[j + 1] = 42
 
-(* scanner state.  st: "ok" | "bad" | "cmt" / "str?" / "url?" (input ended inside one).                     *)
-(* glue: some comment stood between two tokens with no white space on either side; ucm: some unquoted url  *)
-(* contains the two bytes of a comment opener (both only name the class of an input)                         *)
-LexInit == [nx |-> 1, toks |-> <<>>, st |-> "ok", pend |-> FALSE, glue |-> FALSE, ucm |-> FALSE]
+(* scanner: accumulator <<c, toks>>; c = control record (kept apart from the growing token sequence: TLC copies  *)
+(* a record deeply on EXCEPT).  c.st: "ok" | "bad" | "cmt" / "str?" / "url?" (input ended inside one); c.lw: the   *)
+(* last token is white space; c.any: there is a token.  glue: some comment stood between two tokens with no white  *)
+(* space on either side; ucm: some unquoted url contains the two bytes of a comment opener (both only name the     *)
+(* class of an input).                                                                                              *)
+CtlInit == [nx |-> 1, st |-> "ok", pend |-> FALSE, glue |-> FALSE, ucm |-> FALSE, lw |-> FALSE, any |-> FALSE]
 
-LexStep(t, s, i) ==
-  IF i < s.nx \/ s.st # "ok" THEN s
-  ELSE LET r == TokAt(t, i)
-           lastW == Len(s.toks) > 0 /\ s.toks[Len(s.toks)].k = "w"
-       IN IF r.k \in {"bad", "cmt", "str?", "url?"} THEN [s EXCEPT !.st = r.k, !.nx = Len(t) + 1]
-          ELSE IF r.k = "c" THEN [s EXCEPT !.nx = r.e, !.pend = s.pend \/ (Len(s.toks) > 0 /\ ~lastW)]
-          ELSE IF r.k = "w" THEN [s EXCEPT !.nx = r.e, !.pend = FALSE,
-                                           !.toks = IF lastW THEN s.toks ELSE Append(s.toks, WTok)]
-          ELSE [s EXCEPT !.nx = r.e, !.pend = FALSE, !.glue = s.glue \/ s.pend,
-                         !.ucm = s.ucm \/ (r.k = "url" /\ HasCmtMark(r.s)),
-                         !.toks = Append(s.toks, Tok(r.k, r.s))]
+LexStep(t, a, i) ==
+  LET c == a[1] IN
+  IF i < c.nx \/ c.st # "ok" THEN a
+  ELSE LET r == TokAt(t, i) IN
+         IF r.k \in {"bad", "cmt", "str?", "url?"} THEN <<[c EXCEPT !.st = r.k, !.nx = Len(t) + 1], a[2]>>
+         ELSE IF r.k = "c" THEN <<[c EXCEPT !.nx = r.e, !.pend = c.pend \/ (c.any /\ ~c.lw)], a[2]>>
+         ELSE IF r.k = "w" THEN <<[c EXCEPT !.nx = r.e, !.pend = FALSE, !.lw = TRUE, !.any = TRUE],
+                                  IF c.lw THEN a[2] ELSE Append(a[2], WTok)>>
+         ELSE <<[c EXCEPT !.nx = r.e, !.pend = FALSE, !.glue = c.glue \/ c.pend, !.lw = FALSE, !.any = TRUE,
+                          !.ucm = c.ucm \/ (r.k = "url" /\ HasCmtMark(r.s))],
+                Append(a[2], Tok(r.k, r.s))>>
 
 Idx(n) == [j \in 1..n |-> j]
-Lex(t) == FoldLeft(LAMBDA s, i : LexStep(t, s, i), LexInit, Idx(Len(t)))
+Lex(t) == LET a == FoldLeft(LAMBDA acc, i : LexStep(t, acc, i), <<CtlInit, <<>> >>, Idx(Len(t)))
+          IN [toks |-> a[2], st |-> a[1].st, glue |-> a[1].glue, ucm |-> a[1].ucm]
+LexInit == [toks |-> <<>>, st |-> "ok", glue |-> FALSE, ucm |-> FALSE]          \* = Lex(<<>>)
 
 LexWF(l) == l.st = "ok"             \* the domain: every string, comment and url closed, no escapes outside strings
 
@@ -145,33 +163,35 @@ Closes(tk)  == IsD(tk, 41) \/ IsD(tk, 93)
 ParOpen(tk) == tk.k = "fn" \/ IsD(tk, 40)
 IsTerm(tk)  == IsD(tk, 123) \/ IsD(tk, 125) \/ IsD(tk, 59)            \* { } ;
 
-(* left to right: pd = parenthesis depth, bd = {}-block depth, atp = inside the prelude of an at-rule *)
-FwdInit == [dep |-> 0, pd |-> 0, bd |-> 0, atp |-> FALSE, fresh |-> TRUE, info |-> <<>>]
-FwdStep(s, tk) ==
-  LET atp1 == IF s.fresh /\ tk.k # "w" THEN tk.k = "at" ELSE s.atp
+(* left to right: pd = parenthesis depth, bd = {}-block depth, atp = inside the prelude of an at-rule; accumulator <<s, info>> *)
+FwdInit == [dep |-> 0, pd |-> 0, bd |-> 0, atp |-> FALSE, fresh |-> TRUE]
+FwdStep(a, tk) ==
+  LET s    == a[1]
+      atp1 == IF s.fresh /\ tk.k # "w" THEN tk.k = "at" ELSE s.atp
       fr1  == s.fresh /\ tk.k = "w"
-      rec  == [pd |-> s.pd, bd |-> s.bd, atp |-> atp1]
-      s1   == [s EXCEPT !.info = Append(s.info, rec), !.atp = atp1, !.fresh = fr1]
-  IN IF Opens(tk) THEN [s1 EXCEPT !.dep = s.dep + 1, !.pd = IF ParOpen(tk) THEN s.pd + 1 ELSE s.pd]
-     ELSE IF Closes(tk) THEN [s1 EXCEPT !.dep = IF s.dep > 0 THEN s.dep - 1 ELSE 0,
-                                        !.pd = IF IsD(tk, 41) /\ s.pd > 0 THEN s.pd - 1 ELSE s.pd]
+      info == Append(a[2], [pd |-> s.pd, bd |-> s.bd, atp |-> atp1])
+      s1   == [s EXCEPT !.atp = atp1, !.fresh = fr1]
+  IN IF Opens(tk) THEN <<[s1 EXCEPT !.dep = s.dep + 1, !.pd = IF ParOpen(tk) THEN s.pd + 1 ELSE s.pd], info>>
+     ELSE IF Closes(tk) THEN <<[s1 EXCEPT !.dep = IF s.dep > 0 THEN s.dep - 1 ELSE 0,
+                                          !.pd = IF IsD(tk, 41) /\ s.pd > 0 THEN s.pd - 1 ELSE s.pd], info>>
      ELSE IF IsTerm(tk) /\ s.dep = 0 THEN
-            [s1 EXCEPT !.fresh = TRUE, !.atp = FALSE,
-                       !.bd = IF IsD(tk, 123) THEN s.bd + 1
-                              ELSE IF IsD(tk, 125) /\ s.bd > 0 THEN s.bd - 1 ELSE s.bd]
-     ELSE s1
-Fwd(toks) == FoldLeft(FwdStep, FwdInit, toks).info
+            <<[s1 EXCEPT !.fresh = TRUE, !.atp = FALSE,
+                         !.bd = IF IsD(tk, 123) THEN s.bd + 1
+                                ELSE IF IsD(tk, 125) /\ s.bd > 0 THEN s.bd - 1 ELSE s.bd], info>>
+     ELSE <<s1, info>>
+Fwd(toks) == FoldLeft(FwdStep, <<FwdInit, <<>> >>, toks)[2]
 
 (* right to left: the first of { ; } that follows a token at its own nesting level ("eof" if none) *)
-BwdInit == [dep |-> 0, tm |-> "eof", info |-> <<>>]
-BwdStep(toks, s, p) ==
-  LET tk == toks[p]
-      s1 == [s EXCEPT !.info = <<s.tm>> \o s.info]
-  IN IF Closes(tk) THEN [s1 EXCEPT !.dep = s.dep + 1]
-     ELSE IF Opens(tk) THEN [s1 EXCEPT !.dep = IF s.dep > 0 THEN s.dep - 1 ELSE 0]
-     ELSE IF IsTerm(tk) /\ s.dep = 0 THEN [s1 EXCEPT !.tm = IF IsD(tk, 123) THEN "{" ELSE ";"]
-     ELSE s1
-Bwd(toks) == FoldLeft(LAMBDA s, p : BwdStep(toks, s, p), BwdInit, Reverse(Idx(Len(toks)))).info
+BwdInit == [dep |-> 0, tm |-> "eof"]
+BwdStep(toks, a, p) ==
+  LET tk   == toks[p]
+      s    == a[1]
+      info == Append(a[2], s.tm)
+  IN IF Closes(tk) THEN <<[s EXCEPT !.dep = s.dep + 1], info>>
+     ELSE IF Opens(tk) THEN <<[s EXCEPT !.dep = IF s.dep > 0 THEN s.dep - 1 ELSE 0], info>>
+     ELSE IF IsTerm(tk) /\ s.dep = 0 THEN <<[s EXCEPT !.tm = IF IsD(tk, 123) THEN "{" ELSE ";"], info>>
+     ELSE <<s, info>>
+Bwd(toks) == Reverse(FoldLeft(LAMBDA a, p : BwdStep(toks, a, p), <<BwdInit, <<>> >>, Reverse(Idx(Len(toks))))[2])
 
 (* end / start of a compound selector *)
 SelEnd(tk)   == tk.k \in {"id", "hash"} \/ IsD(tk, 42) \/ IsD(tk, 93) \/ IsD(tk, 41)            \* a #a * ] )
